@@ -333,6 +333,30 @@ def aim_threshold(rng):
     return case if fits(case, max_rounds=150, max_calls=30000) else None
 
 
+def tuned_cut_cases(rng, count):
+    """Tuned runs whose max_time sits at the elapsed time of some round (mostly a tuning round,
+    -1/0/+1 ns), so that the loop is cut right after a round that decided to double."""
+    cut = []
+    while len(cut) < count:
+        c = rand_case(rng, tuned=True, test=False, timed=True)
+        if c["n"] == 0:
+            continue
+        sim = simulate(c)
+        if sim is None or sim["K"] < 2:
+            continue
+        hi = sim["K"]
+        if sim["passed"] is not None and rng.random() < 0.7:
+            hi = max(1, sim["passed"])          # a round that fails the threshold (it doubles)
+        k = rng.randrange(1, hi + 1)
+        e = sim["E"][k]
+        c["max"] = ns(max(0, e // 1000 + rng.choice([-1, 0, 0, 1])))
+        if rng.random() < 0.3:
+            c["min"] = ns(e // 1000 + rng.randrange(0, 50))
+        if fits(c):
+            cut.append(c)
+    return cut
+
+
 def make_stream(name, mode, cases, describe=None, hist=None, sb=True):
     lines = [line_of(c) if not isinstance(c, str) else c for c in cases]
     return Stream(name, mode, lines, compare=compare, nontrivial=nontrivial, model_input=model_input,
